@@ -107,6 +107,10 @@ def leaf_names_of(tree):
     return out
 
 
+def has_children(tree):
+    return any(f["kind"] == "child" for f in tree["fields"])
+
+
 def constructible(tree):
     for f in tree["fields"]:
         if f["kind"] == "leaf":
@@ -146,6 +150,14 @@ def gen(rng, tier):
             names += leaf_names_of(r["tree"])
         if cfg["cr"] == "NONE" and len(names) != len(set(names)):
             cfg["cr"] = "AUTO"
+        # ALWAYS_MERGE merges ANY two wrappers that share a field name (also of different classes, also a nested with a
+        # top-level one): that is C11's subject. Here: either no clash at all, or the designed usage — one class with
+        # clash-free field names registered at several top-level destinations (then judged by the oracle only).
+        if cfg["cr"] == "ALWAYS_MERGE" and len(names) != len(set(names)):
+            single = len({r["tree"]["cls"] for r in regs}) == 1
+            one = leaf_names_of(regs[0]["tree"])
+            if not (single and len(one) == len(set(one)) and not has_children(regs[0]["tree"])):
+                cfg["cr"] = "AUTO"
         if nreg > 1 and cfg["nest"] == "WITHOUT_ROOT":
             cfg["nest"] = "DEFAULT"
         case = {"op": "defaults.empty", "case": {"cfg": cfg, "api": api, "regs": regs}}
@@ -364,9 +376,15 @@ def oracle(case, obs):
     fails = []
     if "build_error" in obs:
         return fails
+    names = []
+    for r in c["regs"]:
+        names += leaf_names_of(r["tree"])
+    clash = len(names) != len(set(names))
     for r, o, ref in zip(c["regs"], obs["outs"], obs["refs"]):
         if "ctor" in ref:
             continue  # the class is not constructible by itself and no default was supplied: outside the property
+        if o["o"] == "raise" and o.get("exc") == "ConflictResolutionError" and clash:
+            continue  # set-up may give up on a forest with real name clashes (allowed by C03); not C01's subject
         if o["o"] != "ok":
             fails.append({"clause": "accepts-empty", "dest": r["dest"], "out": o.get("o"), "exc": o.get("exc"),
                           "detail": f"dest {r['dest']}: empty command line was not accepted: {o} (cfg {c['cfg']}, api {c['api']})"})
@@ -424,25 +442,61 @@ def find_field(tree, path):
 
 
 def _optional_factory(case, obs, fail):
-    """D11: every differing leaf is an Optional member whose default comes from a default_factory, no caller default on the
-    chain, and the parse returned None there."""
+    """D11: every differing leaf is an Optional[dataclass] member for which the constructor (through its own
+    default_factory or through the default_factory instance of an enclosing member) yields an instance, no caller default
+    instance was supplied for this destination, and the parse returned None there (parsing.py:1145 only looks at the
+    default handed down from a caller instance)."""
     if fail.get("clause") != "equals-default":
         return False
     r = next(x for x in case["case"]["regs"] if x["dest"] == fail["dest"])
+    if r["caller"] is not None:
+        return False
     diffs = differing_leaves(fail["got"], fail["ref"])
     if not diffs:
         return False
     for path, got, ref in diffs:
         f = find_field(r["tree"], path)
-        if not (f and f["kind"] == "child" and f["optional"] and f["dflt"]["kind"] in ("factory_cls", "factory_inst")
+        if not (f and f["kind"] == "child" and f["optional"]
                 and isinstance(got, dict) and got.get("t") == "none" and isinstance(ref, dict) and ref.get("t") == "inst"):
             return False
     return True
 
 
+def _merge_list_default(case, obs, fail):
+    """D12 (shared with C11): ALWAYS_MERGE, one class at n destinations, a list/tuple field whose default has exactly n
+    items: the default is split element-wise over the destinations."""
+    c = case["case"]
+    if fail.get("clause") != "equals-default" or c["cfg"]["cr"] != "ALWAYS_MERGE":
+        return False
+    n = len(c["regs"])
+    if n < 2 or len({r["tree"]["cls"] for r in c["regs"]}) != 1:
+        return False
+    r = next(x for x in c["regs"] if x["dest"] == fail["dest"])
+    diffs = differing_leaves(fail["got"], fail["ref"])
+    if not diffs:
+        return False
+    for path, got, ref in diffs:
+        f = find_field(r["tree"], path)
+        if not (f and f["kind"] == "leaf" and isinstance(ref, dict) and ref.get("t") in ("list", "tuple") and len(ref["v"]) == n):
+            return False
+    return True
+
+
+def _has_union_str_leaf(tree):
+    for f in tree["fields"]:
+        if f["kind"] == "leaf":
+            t = f["f"]["ty"]
+            inner = t["inner"] if t["k"] == "opt" else t
+            d = f["f"]["default"]
+            if inner["k"] == "union" and d["kind"] == "value" and d["v"]["t"] == "str":
+                return True
+    return False
+
+
 def _union_str_default(case, obs, fail):
     """a Union-typed leaf whose default is a str that an earlier Union member's parser accepts ('0' for
-    Union[float,str]): argparse converts string defaults through type=, so the default comes back converted."""
+    Union[float,str]): argparse converts string defaults through type=, so the default comes back converted — and an
+    Optional member holding such a leaf then looks 'touched' and is built instead of staying None."""
     if fail.get("clause") != "equals-default":
         return False
     r = next(x for x in case["case"]["regs"] if x["dest"] == fail["dest"])
@@ -451,8 +505,13 @@ def _union_str_default(case, obs, fail):
         return False
     for path, got, ref in diffs:
         f = find_field(r["tree"], path)
-        if not (f and f["kind"] == "leaf"):
+        if not f:
             return False
+        if f["kind"] == "child":
+            if not (f["optional"] and _has_union_str_leaf(f["tree"]) and isinstance(got, dict) and got.get("t") == "inst"
+                    and isinstance(ref, dict) and ref.get("t") == "none"):
+                return False
+            continue
         t = f["f"]["ty"]
         inner = t["inner"] if t["k"] == "opt" else t
         if not (inner["k"] == "union" and isinstance(ref, dict) and ref.get("t") == "str" and isinstance(got, dict) and got.get("t") in ("int", "float", "bool")):
@@ -460,4 +519,27 @@ def _union_str_default(case, obs, fail):
     return True
 
 
-FINDINGS = {"C01-optional-member-default-factory": _optional_factory, "C01-union-str-default-converted": _union_str_default}
+def _merge_optional_list_default(case, obs, fail):
+    """ALWAYS_MERGE, one class at n destinations, an Optional[List[T]] field whose default is a list of length != n:
+    the default is neither wrapped per destination nor recognised as per-destination list -> AssertionError
+    'Not the same number of default values and destinations' at set-up (field_wrapper.py:780-788)."""
+    c = case["case"]
+    if fail.get("clause") != "accepts-empty" or fail.get("exc") != "AssertionError" or c["cfg"]["cr"] != "ALWAYS_MERGE":
+        return False
+    if len(c["regs"]) < 2 or len({r["tree"]["cls"] for r in c["regs"]}) != 1:
+        return False
+    for f in c["regs"][0]["tree"]["fields"]:
+        if f["kind"] == "leaf":
+            t, d = f["f"]["ty"], f["f"]["default"]
+            if t["k"] == "opt" and t["inner"]["k"] == "list" and d["kind"] == "value" and d["v"]["t"] == "list" and len(d["v"]["v"]) != len(c["regs"]):
+                return True
+    return False
+
+
+def skip_model(case, obs):
+    """a ConflictResolutionError at set-up (allowed by C03 for forests with real clashes) is outside this model"""
+    return any(o.get("o") == "raise" and o.get("exc") == "ConflictResolutionError" for o in obs.get("outs", []))
+
+
+FINDINGS = {"C01-always-merge-list-default-len-n": _merge_list_default,
+            "C01-always-merge-optional-list-default": _merge_optional_list_default, "C01-union-str-default-converted": _union_str_default}
